@@ -272,15 +272,22 @@ class Check(PropertyCheck):
     ]
     manifest = {
         'text': ('Model/Names.v mirrors visit_Import/visit_ImportFrom/_importNames/_importAll/_handleReExport/_handleAliasing, '
-                 'expandName/resolveName/_localNameToFullName/find/reparent and the work-list; Spec/PyImport.v states what '
-                 'CPython binds. Theorems: the relative-level arithmetic equals importlib._resolve_name for all inputs; every '
-                 'alias-map entry written for an import statement denotes what CPython binds; expandName is sound (never a '
-                 'different object) for every state satisfying the registry/alias invariants and those invariants hold for the '
-                 'entries the visitor writes; three refuted statements with witnesses (stale name after re-export, nested class '
-                 'seeing its enclosing class, class attribute falling back to module scope). Tie: model vs real pydoctor and '
-                 'spec vs CPython on generated projects; oracle = the property on every run-time bound name.'),
+                 'expandName/resolveName/_localNameToFullName/Class.find/reparent and the processModule work-list; Spec/PyImport.v '
+                 'states what CPython binds (relations + an evaluator proved sound for them). Proved for all inputs: the relative-'
+                 'level arithmetic equals importlib._resolve_name (C04_relative_level); every alias entry written for an import '
+                 'statement denotes what CPython binds (C04_alias_map_sound); expandName/resolveName never yield another object '
+                 'than CPython in any state satisfying the registry/alias invariants (C04_expand_sound, C04_star_sound_partial) '
+                 'and pydoctor establishes those invariants for every well-formed project of imports/defs/classes under every '
+                 'processing order (C04_expand_sound_project_partial); alias-entry and module-alias names resolve '
+                 '(C04_direct_import_resolves, C04_module_alias_resolves). Three refuted statements with vm_compute witnesses: '
+                 'stale defining-module name after a re-export, nested class seeing its enclosing class, class attribute '
+                 'falling back to module scope. Tie: model vs real pydoctor (registry, alias maps, bases, expandName, '
+                 'resolveName) and spec vs CPython on a complete definer x consumer x import-form x re-export x order matrix, '
+                 'the complete relative-level grid and seeded random projects; oracle = the property on every run-time bound name.'),
         'note': ('Trusted: Coq kernel, extraction + driver, harness, CPython as the reference. Residual: classes have at most '
-                 'one base; import cycles and rebinding are outside the quantifier; the final-state semantics of the spec is '
+                 'one base in the model; whole-project soundness is mechanised for projects without alias assignments, base '
+                 'expressions, star imports and re-exports (those are covered by the state-level theorem plus the correspondence '
+                 'check); import cycles and rebinding are outside the quantifier; the final-state semantics of the spec is '
                  'validated against CPython, not proved about it.'),
         'technique': 'Coq proof + three-way differential check (model, real pydoctor, CPython)',
     }
